@@ -14,11 +14,14 @@ structure CfgOK (c : Cfg) : Prop where
   /-- `compute_array_bits(e) ≥ b` (for a bitmap width `0 < b < W`) means `e` has at most `W - b` bits -/
   cab_bound : ∀ e b, e < 2 ^ c.W → 0 < b → b ≤ c.cab e → e < 2 ^ (c.W - b)
   cab_le : ∀ e, c.cab e ≤ c.W
+  /-- the grown dense block contains the word of the element that caused the growth -/
+  grow : ∀ e, e >>> c.dShift < c.denseGrow e
 
 /-- inline value -/
 structure StackWF (c : Cfg) (t : TinyC.T) : Prop where
   sz_pos : 1 ≤ t.sz
   sz_le : t.sz ≤ c.codec.maxN
+  range : ∀ x, x ∈ t.members c.codec → x < 2 ^ c.W
 
 /-- dense bitset: `bits = W` -/
 structure DenseWF (c : Cfg) (sz cap : Nat) (a : Tbl) : Prop where
@@ -26,6 +29,7 @@ structure DenseWF (c : Cfg) (sz cap : Nat) (a : Tbl) : Prop where
   cap_pos : 0 < cap
   words : ∀ i, i < a.size → get a i < 2 ^ c.W
   szc : sz = (elems c (.heap sz cap c.W a)).length
+  range : ∀ x, x ∈ elems c (.heap sz cap c.W a) → x < 2 ^ c.W
 
 /-- bitmap Robin-Hood table: `0 < bits < W` -/
 structure BitmapWF (c : Cfg) (sz cap bits : Nat) (a : Tbl) : Prop where
@@ -40,6 +44,7 @@ structure BitmapWF (c : Cfg) (sz cap bits : Nat) (a : Tbl) : Prop where
   /-- every member could be stored with this width -/
   fits : ∀ x, x ∈ elems c (.heap sz cap bits a) → bits ≤ c.cab x
   szc : sz = (elems c (.heap sz cap bits a)).length
+  range : ∀ x, x ∈ elems c (.heap sz cap bits a) → x < 2 ^ c.W
 
 /-- the representation invariant -/
 def WF (c : Cfg) : Rp → Prop
